@@ -4,6 +4,9 @@
 EXTENDS TableFill, Universe, Classics, IOUtils
 UPick == CASE IOEnv.UNIVERSE = "U1" -> U1
            [] IOEnv.UNIVERSE = "U2" -> U2
+           \* U2 under every item order and every fill order is beyond 1.3 * 10^8 states (measured, unfinished after 70 min);
+           \* the thorough tier takes U1 plus the three-rule grammars of U2 whose right-hand sides have at most 4 symbols in all (7.5 * 10^6 states, 4 min; at most 5: > 10^8)
+           [] IOEnv.UNIVERSE = "U2light" -> { G \in U2 : Len(G.rules) <= 2 \/ Len(G.rules[1].rhs) + Len(G.rules[2].rhs) + Len(G.rules[3].rhs) <= 4 }
            [] IOEnv.UNIVERSE = "none" -> {}
 SmallClassics == { c.g : c \in { d \in Classics : Len(d.g.rules) <= 3 } }
 Init == TFInit(UPick \cup SmallClassics)
